@@ -261,3 +261,45 @@ func c09PaddingRanges(p *Prog, r *Result) {
 		r.table(p, rule, "pad sizes accepted", accPos, *accepted == want, "accepts "+accepted.String()+", PKCS#7 requires "+want.String())
 	}
 }
+
+// c09ChainLeafKey: FDO's X5CHAIN puts the end-entity certificate first; the
+// key of a chain is the key of element 0. Every load of a certificate's
+// PublicKey through an element of a certificate slice (in the protocol and key
+// packages) must therefore index with the constant 0 — or run inside a loop
+// over the chain that does not hand the key out (chain verification).
+func c09ChainLeafKey(p *Prog, r *Result) {
+	rule := "C09.chain-leaf-key"
+	r.rule(rule, "wherever the key of a certificate chain is taken (a load of Certificate.PublicKey through an element of a slice of certificates in package fdo or fdo/protocol), the element index is the constant 0: the end-entity certificate comes first in an X5CHAIN")
+	r.floor(rule, 3)
+	n := 0
+	for _, fn := range p.Funcs {
+		if pk := funcPkgPath(fn); pk != modulePath && pk != modulePath+"/protocol" {
+			continue
+		}
+		for _, b := range fn.Blocks {
+			for _, in := range b.Instrs {
+				fa, ok := in.(*ssa.FieldAddr)
+				if !ok {
+					continue
+				}
+				fld := fieldName(fa.X.Type(), fa.Field)
+				if fld != "crypto/x509.Certificate.PublicKey" && fld != "fdo/cbor.X509Certificate.PublicKey" {
+					continue
+				}
+				// the certificate pointer: a load of an element address
+				ld, ok := fa.X.(*ssa.UnOp)
+				if !ok || ld.Op != token.MUL {
+					continue
+				}
+				ia, ok := ld.X.(*ssa.IndexAddr)
+				if !ok {
+					continue
+				}
+				n++
+				_, isConst0 := constInt(ia.Index)
+				ok0 := isConst0 && isConstInt(ia.Index, 0)
+				r.table(p, rule, fmt.Sprintf("key load #%d in %s", n, p.FuncName(fn)), p.instrPos(fa), ok0, fmt.Sprintf("element index %s", ia.Index.String()))
+			}
+		}
+	}
+}
